@@ -303,16 +303,23 @@ def dUyhx (wx : Opinion α n) (conds : CondTab α n m) (ay : Tab α m) : α :=
   Tab.reduceMin (Vector.ofFn fun y : Fin m =>
     ((dMix wx.a conds ay)[y] - Tab.reduceMin (Vector.ofFn fun x : Fin n => (conds[x]).b[y])) / ay[y])
 
-def dU (wx : Opinion α n) (conds : CondTab α n m) (ay : Tab α m) : α :=
+/-- the clamp of repair 9ec2d8b: `if v < 0 { 0 } else { v }` -/
+def clampZ (v : α) : α := if Scalar.lt v Scalar.zero then Scalar.zero else v
+
+/-- the uncertainty before the clamp -/
+def dUraw (wx : Opinion α n) (conds : CondTab α n m) (ay : Tab α m) : α :=
   dUyhx wx conds ay
     - Tab.sumIter (Vector.ofFn fun x : Fin n => (dUyhx wx conds ay - (conds[x]).u) * wx.b[x])
 
+def dU (wx : Opinion α n) (conds : CondTab α n m) (ay : Tab α m) : α :=
+  clampZ (dUraw wx conds ay)
+
 def dB (wx : Opinion α n) (conds : CondTab α n m) (ay : Tab α m) : Tab α m :=
-  Vector.ofFn fun y => (dMix wx.projection conds ay)[y] - ay[y] * dU wx conds ay
+  Vector.ofFn fun y => clampZ ((dMix wx.projection conds ay)[y] - ay[y] * dU wx conds ay)
 
 theorem deduceOf_eq (wx : Opinion α n) (conds : CondTab α n m) (ay : Tab α m) :
     deduceOf wx conds ay = Opinion.mk' (Simplex.normalized (dB wx conds ay) (dU wx conds ay)) ay := by
-  unfold deduceOf dB dU dUyhx dMix
+  unfold deduceOf dB dU dUraw dUyhx dMix clampZ
   simp
 
 /-! ### `inverse` in pieces -/
@@ -354,9 +361,9 @@ def iU (conds : CondTab α n m) (ax : Tab α n) (ay : Tab α m) (y : Fin m) : α
 theorem inverse_eq (conds : CondTab α n m) (ax : Tab α n) (ay : Tab α m) :
     inverse conds ax ay = Vector.ofFn fun y =>
       Simplex.normalized
-        (Vector.ofFn fun x => ((iTemp conds ax ay)[y])[x] * ax[x] - iU conds ax ay y * ax[x])
+        (Vector.ofFn fun x => clampZ (((iTemp conds ax ay)[y])[x] * ax[x] - iU conds ax ay y * ax[x]))
         (iU conds ax ay y) := by
-  unfold inverse iU iWprop iMaxUyx iWeights iIrrel iTemp iUyx projections
+  unfold inverse iU iWprop iMaxUyx iWeights iIrrel iTemp iUyx projections clampZ
   simp
 
 end pieces
@@ -808,9 +815,9 @@ theorem dUyhx_perm (σ : Equiv.Perm (Fin n)) (ρ : Equiv.Perm (Fin m)) (wx : Opi
 theorem dU_perm (σ : Equiv.Perm (Fin n)) (ρ : Equiv.Perm (Fin m)) (wx : Opinion (XQ f) n)
     (conds : CondTab (XQ f) n m) (ay : Tab (XQ f) m) :
     dU (permO σ wx) (permC σ ρ conds) (permT ρ ay) = dU wx conds ay := by
-  unfold dU
+  unfold dU dUraw
   rw [dUyhx_perm]
-  congr 1
+  congr 2
   exact sumIter_congr σ (fun x => by simp)
 
 theorem dB_perm (σ : Equiv.Perm (Fin n)) (ρ : Equiv.Perm (Fin m)) (wx : Opinion (XQ f) n)
